@@ -733,6 +733,19 @@ pub struct ApiNlriCase {
     /// arms the daemon does not convert / no arm
     pub other_arm: Option<u8>,
     pub muts: Vec<Mutation>,
+    /// instead of the seed: an IpAddressPrefix an operator may type - any address (host bits set or not) with
+    /// any prefix length from 0 to one beyond the address width: (v6, address bits, length)
+    #[serde(default)]
+    pub typed_prefix: Option<TypedPrefix>,
+}
+
+#[derive(Clone, Debug, Serialize, Deserialize)]
+pub struct TypedPrefix {
+    pub v6: bool,
+    /// address bits (IPv4: the low 32 bits of `lo`)
+    pub hi: u64,
+    pub lo: u64,
+    pub len: u8,
 }
 
 fn api_nlri_arm(x: &api::Nlri) -> &'static str {
@@ -777,6 +790,13 @@ pub fn check_api_nlri(c: &ApiNlriCase) -> CheckResult {
             Ok(x) => x,
             Err(_) => return Ok(CaseInfo::trivial().class("no-seed")),
         },
+    };
+    let (seed, seed_family) = match &c.typed_prefix {
+        Some(t) => {
+            let addr = if t.v6 { std::net::IpAddr::V6(std::net::Ipv6Addr::from(((t.hi as u128) << 64) | t.lo as u128)) } else { std::net::IpAddr::V4(std::net::Ipv4Addr::from(t.lo as u32)) };
+            (api::Nlri { nlri: Some(api::nlri::Nlri::Prefix(api::IpAddressPrefix { prefix_len: t.len as u32, prefix: addr.to_string() })) }, if t.v6 { Family::IPV6 } else { Family::IPV4 })
+        }
+        None => (seed, seed_family),
     };
     let family = c.other_family.map(fam_of).unwrap_or(seed_family);
     let bytes = seed.encode_to_vec();
@@ -995,7 +1015,14 @@ fn arb_nlri_case() -> impl Strategy<Value = NlriCase> {
 }
 
 pub fn arb_api_nlri_case() -> impl Strategy<Value = ApiNlriCase> {
-    (arb_nlri_case(), proptest::option::weighted(0.15, 0u8..19), proptest::option::weighted(0.03, 0u8..5), pb::arb_mutations(4)).prop_map(|(seed, other_family, other_arm, muts)| ApiNlriCase { seed, other_family, other_arm, muts })
+    let typed = (any::<bool>(), prop_oneof![1 => Just(0u64), 3 => any::<u64>()], prop_oneof![1 => Just(0u64), 1 => Just(0x0a01_0203u64), 3 => any::<u64>()], prop_oneof![3 => Just(0u8), 1 => Just(1u8), 1 => Just(8u8), 1 => Just(31u8), 1 => Just(32u8), 1 => Just(33u8), 1 => Just(64u8), 1 => Just(127u8), 1 => Just(128u8), 1 => Just(129u8), 3 => 0u8..130]).prop_map(|(v6, hi, lo, len)| TypedPrefix { v6, hi, lo, len });
+    (arb_nlri_case(), proptest::option::weighted(0.15, 0u8..19), proptest::option::weighted(0.03, 0u8..5), pb::arb_mutations(4), proptest::option::weighted(0.08, typed)).prop_map(|(seed, other_family, other_arm, mut muts, typed_prefix)| {
+        if typed_prefix.is_some() {
+            // what was typed goes in as typed
+            muts.truncate(1);
+        }
+        ApiNlriCase { seed, other_family, other_arm, muts, typed_prefix }
+    })
 }
 
 const FAM_SUBS: [&str; 19] = [
